@@ -588,6 +588,9 @@ def generate(vc_path, out_dir, canary=False, lenient=False):
                     if m2 and m2.group(1).startswith("pub fn "):
                         fs.subs.append((m2.group(1), m2.group(2).replace("\\/", "/"), parse_opts(m2.group(3)).get("why", "")))
                 k2 += 1
+            if d.text().strip():
+                # extra ASSUMED clauses added on top of the imported (proved) contract
+                fs.sig = (fs.sig or "") + "\n" + d.text()
             f = sf(rel)
             if block is not None:
                 cands = [it for it in f.sub_items(block) if it.kind == "fn" and it.name == oname]
